@@ -265,6 +265,7 @@ extern __thread int tls_tid;
 extern __thread int tls_in_rt;
 extern int64_t vnow;
 extern uint64_t op_seq;
+extern uint64_t write_seq;  // state-changing operations executed so far (drives vrt_yield)
 extern Point pts[MAXPTS];
 extern int npts;
 extern int cost_so_far;
